@@ -41,7 +41,7 @@ pub trait RollingValidReg<T: IsNone>: Vec1View<T> {
                     let nn_add_n = n.mul_add(n, n);
                     let sum_t = (nn_add_n >> 1).f64(); // sum of time from 1 to window
                     // denominator of slope
-                    let divisor = (n * nn_add_n * n.mul_add(2, 1)).f64() / 6. - sum_t.powi(2);
+                    let divisor = n_f64 * (nn_add_n * n.mul_add(2, 1)).f64() / 6. - sum_t.powi(2);
                     let slope = (n_f64 * sum_xt - sum_t * sum) / divisor;
                     let intercept = sum_t.mul_add(-slope, sum) / n_f64;
                     slope.mul_add(n_f64, intercept)
@@ -101,7 +101,7 @@ pub trait RollingValidReg<T: IsNone>: Vec1View<T> {
                     let nn_add_n = n.mul_add(n, n);
                     let sum_t = (nn_add_n >> 1).f64(); // sum of time from 1 to window
                     // denominator of slope
-                    let divisor = (n * nn_add_n * n.mul_add(2, 1)).f64() / 6. - sum_t.powi(2);
+                    let divisor = n_f64 * (nn_add_n * n.mul_add(2, 1)).f64() / 6. - sum_t.powi(2);
                     let slope = (n_f64 * sum_xt - sum_t * sum) / divisor;
                     let intercept = sum_t.mul_add(-slope, sum) / n_f64;
                     slope.mul_add((n + 1).f64(), intercept)
@@ -161,7 +161,7 @@ pub trait RollingValidReg<T: IsNone>: Vec1View<T> {
                     let nn_add_n = n.mul_add(n, n);
                     let sum_t = (nn_add_n >> 1).f64(); // sum of time from 1 to window
                     // denominator of slope
-                    let divisor = (n * nn_add_n * n.mul_add(2, 1)).f64() / 6. - sum_t.powi(2);
+                    let divisor = n_f64 * (nn_add_n * n.mul_add(2, 1)).f64() / 6. - sum_t.powi(2);
                     (n_f64 * sum_xt - sum_t * sum) / divisor
                 } else {
                     f64::NAN
@@ -219,7 +219,7 @@ pub trait RollingValidReg<T: IsNone>: Vec1View<T> {
                     let nn_add_n = n.mul_add(n, n);
                     let sum_t = (nn_add_n >> 1).f64(); // sum of time from 1 to window
                     // denominator of slope
-                    let divisor = (n * nn_add_n * n.mul_add(2, 1)).f64() / 6. - sum_t.powi(2);
+                    let divisor = n_f64 * (nn_add_n * n.mul_add(2, 1)).f64() / 6. - sum_t.powi(2);
                     let slope = (n_f64 * sum_xt - sum_t * sum) / divisor;
                     sum_t.mul_add(-slope, sum) / n_f64
                 } else {
